@@ -71,27 +71,51 @@ fn pat(seed: u8, i: usize) -> u8 {
 pub const JUNK: u8 = 0xA5;
 
 /// The byte ranges of a block of `size` bytes that carry the pattern: everything when
-/// `size <= dense_limit`, else the first and last page and 128 bytes around every 32 KiB offset.
+/// `size <= dense_limit`, else the first and last page and 128 bytes around every 256 KiB offset.
 fn ranges(size: usize, dense_limit: usize, mut f: impl FnMut(usize, usize)) {
     if size <= dense_limit || size <= 3 * PAGE {
         f(0, size);
         return;
     }
     f(0, PAGE);
-    let mut o = 32 * 1024;
+    let mut o = 256 * 1024;
     while o + 64 < size - PAGE {
         if o - 64 >= PAGE {
             f(o - 64, 128);
         }
-        o += 32 * 1024;
+        o += 256 * 1024;
     }
     f(size - PAGE, PAGE);
 }
 
+/// pattern bytes of the run [i, i+n) that lies inside one 256-byte row (i >> 8 constant)
+#[inline]
+fn row_const(seed: u8, i: usize) -> u8 {
+    ((i >> 8) as u8).wrapping_mul(17).wrapping_add(seed)
+}
+static ROW: [u8; 256] = {
+    let mut t = [0u8; 256];
+    let mut j = 0;
+    while j < 256 {
+        t[j] = (j as u8).wrapping_mul(31);
+        j += 1;
+    }
+    t
+};
+
 unsafe fn fill_pattern(b: &Block, from: usize, dense_limit: usize) {
     ranges(b.size, dense_limit, |o, n| {
-        for i in o.max(from)..o + n {
-            *((b.ptr + i) as *mut u8) = pat(b.seed, i);
+        let mut i = o.max(from);
+        let end = o + n;
+        while i < end {
+            let row_end = ((i | 255) + 1).min(end);
+            let c = row_const(b.seed, i);
+            let dst = std::slice::from_raw_parts_mut((b.ptr + i) as *mut u8, row_end - i);
+            let src = &ROW[i & 255..(i & 255) + dst.len()];
+            for (d, s) in dst.iter_mut().zip(src) {
+                *d = s.wrapping_add(c);
+            }
+            i = row_end;
         }
     });
 }
@@ -106,11 +130,22 @@ unsafe fn verify_pattern(ptr: usize, seed: u8, layout_size: usize, upto: usize, 
         if bad.is_some() {
             return;
         }
-        for i in o..(o + n).min(upto) {
-            if *((ptr + i) as *const u8) != pat(seed, i) {
-                bad = Some(i);
+        let mut i = o;
+        let end = (o + n).min(upto);
+        while i < end {
+            let row_end = ((i | 255) + 1).min(end);
+            let c = row_const(seed, i);
+            let got = std::slice::from_raw_parts((ptr + i) as *const u8, row_end - i);
+            let want = &ROW[i & 255..(i & 255) + got.len()];
+            let mut acc = 0u8;
+            for (g, w) in got.iter().zip(want) {
+                acc |= *g ^ w.wrapping_add(c);
+            }
+            if acc != 0 {
+                bad = (i..row_end).find(|&j| *((ptr + j) as *const u8) != pat(seed, j));
                 return;
             }
+            i = row_end;
         }
     });
     bad
@@ -466,6 +501,10 @@ pub fn run_case(w: &mut World, c: &Case, r: &mut Report, verbose: bool) -> RunIn
     let oom_mode = !c.refuse.is_empty();
     let mut info = RunInfo::default();
     let mut case_json = c.to_json();
+    let case_prefix = {
+        let s = case_json.to_string();
+        s[..s.len() - 1].to_string()
+    };
     let mut after_refusal = false;
     let total = c.seed.len() + c.ops.len();
     let mut i = 0;
@@ -474,11 +513,14 @@ pub fn run_case(w: &mut World, c: &Case, r: &mut Report, verbose: bool) -> RunIn
         if i == c.seed.len() {
             info.calls_in_seed = w.k.calls;
         }
-        case_json["op"] = json!(if after_refusal { "oom" } else { op.kind() });
-        case_json["at"] = json!(i);
-        set_case(&case_json.to_string());
+        let opname = if after_refusal { "oom" } else { op.kind() };
+        set_case(&format!("{case_prefix},\"op\":\"{opname}\",\"at\":{i}}}"));
         let st = w.step(op);
         clear_case();
+        if !st.fails.is_empty() || st.refused {
+            case_json["op"] = json!(opname);
+            case_json["at"] = json!(i);
+        }
         if verbose {
             println!(
                 "  [{i}] {:<14} -> {} events {:?} footprint {} regions {:x?}",
